@@ -45,6 +45,17 @@ func (f *SymbolValue) Call(s *slip.Scope, args slip.List, depth int) slip.Object
 	if 0 < len(sym) && sym[0] == ':' {
 		return sym
 	}
+	// A package qualified symbol is looked up in that package the same way
+	// evaluating the symbol does, pkg:name for exported variables only and
+	// pkg::name for any variable of the package.
+	if pkg, name, private := unpackSymbol(sym); pkg != nil {
+		if vv := pkg.GetVarVal(name); vv != nil && (vv.Export || private) {
+			if value := vv.Value(); slip.Unbound != value {
+				return value
+			}
+		}
+		slip.UnboundVariablePanic(s, depth, sym, "The variable %s is unbound.", sym)
+	}
 	result, has := slip.CurrentPackage.Get(string(sym))
 	if !has {
 		slip.UnboundVariablePanic(s, depth, sym, "The variable %s is unbound.", sym)
